@@ -1,6 +1,6 @@
 """Property -> rules mapping, level texts, assumptions."""
 from . import entries
-from .rules import (canon, facade, flag, floatrule, limbs, macro, sibling, structural, table, total_rule, unimpl,
+from .rules import (canon, facade, flag, floatrule, guard, limbs, macro, sibling, structural, table, total_rule, unimpl,
                     variant, witness)
 
 COMMON_ASSUMPTIONS = [
@@ -90,7 +90,8 @@ def rules_with_canon(pid, files, extra=None):
 
 
 def rules_C07(ctx):
-    return total_for("C07", ctx) + [structural.maskkind(ctx), flag.lowlimb(ctx), variant.run(ctx, "all", ["conv"])]
+    return total_for("C07", ctx) + [structural.maskkind(ctx), flag.lowlimb(ctx), variant.run(ctx, "all", ["conv"]),
+                                    guard.try_from_u64_model(ctx)]
 
 
 def flag_for(files, ops=None):
@@ -129,7 +130,20 @@ def rules_total_only(pid, own_only=False):
 
 
 def rules_C03(ctx):
-    return total_for("C03", ctx) + [unimpl.run(ctx, "all")]
+    return total_for("C03", ctx) + [unimpl.run(ctx, "all"), guard.zero_divisor(ctx)]
+
+
+def rules_C17(ctx):
+    return total_for("C17", ctx) + [guard.c17(ctx)]
+
+
+def rules_C08(ctx):
+    return total_for("C08", ctx) + [canon_for(ctx, {"src/bytes.rs"}), guard.buffers(ctx)]
+
+
+def rules_C10(ctx):
+    return total_for("C10", ctx) + [canon_for(ctx, {"src/modular.rs"}), flag.flag(ctx, "all", {"src/modular.rs"}),
+                                    guard.zero_divisor(ctx)]
 
 
 PARTIAL = ("Structural clauses of %s decided for all paths, all enabled integrations and the evaluated (BITS, LIMBS) "
@@ -168,13 +182,13 @@ PROPS = {
              ["wrapped payload values"]),
     "C08": P("C08", "try_from_{be,le}_slice, checked_copy_* and the slice/vec byte forms reach no undischarged panic "
              "site in any configuration, in particular the asserting from_limbs only behind a top-limb check (R-TOTAL)",
-             "digit order, round trip", rules_with_canon("C08", {"src/bytes.rs"}), ["digit order inside the loops", "round trip"]),
+             "digit order, round trip", rules_C08, ["digit order inside the loops", "round trip"]),
     "C09": P("C09", "from_str/from_str_radix/from_base_* and the formatters reach no undischarged panic site (R-TOTAL)",
              "Horner/spigot arithmetic, padding output", rules_C09,
              ["Horner/spigot arithmetic", "padding and alignment output"]),
     "C10": P("C10", "reduce_mod/add_mod/mul_mod/pow_mod/inv_mod reach the zero-divisor panic only behind a dominating "
              "non-zero test of the modulus (R-TOTAL, D-zero)", "residues, pow_mod, inv_mod cofactor sign",
-             rules_with_canon("C10", {"src/modular.rs"}, flag_for({"src/modular.rs"})), ["residues", "pow_mod", "inv_mod cofactor sign"]),
+             rules_C10, ["residues", "pow_mod", "inv_mod cofactor sign"]),
     "C13": P("C13", "checked_log*/checked_pow and the pow family reach no undischarged panic site at any width, "
              "including BITS < 4 where the constants 2 and 10 do not fit (R-TOTAL, D-lit, return-discriminant "
              "summaries)", "values, termination of root, float estimates", rules_C13,
@@ -186,7 +200,7 @@ PROPS = {
              "num-bigint, sqlx, diesel, pyo3, bn-rs, byte-slice and string parsers) reaches no undischarged panic site "
              "in any configuration: panic-site inventory of the call-graph closure with guard-dominance discharge "
              "(R-TOTAL)", "that the returned value is the one the input denotes; termination",
-             rules_total_only("C17"), ["that the returned value is the one the input denotes", "termination"]),
+             rules_C17, ["that the returned value is the one the input denotes", "termination"]),
     "C18": P("C18", "float<->Uint conversions reach no undischarged panic site (R-TOTAL)",
              "rounding, neighbour and monotonicity claims", rules_C18,
              ["rounding direction", "neighbour/monotonicity of Uint->float"]),
